@@ -25,12 +25,29 @@ EXCLUDED = {"ambiguous": 0}
 @st.composite
 def regex_case(draw, no_diamond=False):
     prog = draw(st.one_of(layout_program(structured=True), layout_program(structured=False)))
+    arrow_at = None
+    if draw(st.integers(0, 5)) == 0:
+        # an instruction whose text contains the separator of the regex file
+        prog = dict(prog)
+        items = list(prog["items"])
+        cand = [k for k, it in enumerate(items) if it[0] == "I" and k > 0]
+        if cand:
+            k = draw(st.sampled_from(cand))
+            lit = draw(st.sampled_from(['"a=>b"', '"=>"', '"x => y"']))
+            items[k:k] = [["I", "byte", [lit]], ["I", "pop", []]]
+            prog["items"] = items
+            prog["features"] = sorted(set(prog.get("features", [])) | {"separator_in_instruction"})
+            arrow_at = lit
     g = RCFG(prog)
     labels = [nd.imm[0] for nd in g.seq if nd.op == "label" and nd.idx in g.retained]
     label = draw(st.sampled_from(labels + ["*"] * max(2, len(labels))))
     ret = [nd for nd in g.seq if nd.idx in g.retained and nd.op not in ("#pragma",)]
     n = draw(st.integers(1, 4))
     start = draw(st.integers(0, max(0, len(ret) - 1)))
+    if arrow_at is not None and draw(st.booleans()):
+        hits = [k for k, nd in enumerate(ret) if nd.op == "byte" and arrow_at in nd.text]
+        if hits:
+            start = hits[0]
     window = [nd.text for nd in g.seq[ret[start].idx: ret[start].idx + n]] if ret else ["int 1"]
     mode = draw(st.integers(0, 5))
     if mode == 0:  # mutate -> probably absent
